@@ -178,12 +178,12 @@ func hostileDomain(full bool) [][]byte {
 	// PUBLISH shapes
 	for _, fl := range []byte{0, 1, 2, 3, 4, 5, 6, 7, 8, 10, 12, 13, 14} {
 		head := byte(tPUBLISH<<4) | fl
-		add([]byte{head, 5, 0, 1, 't', 0, 9})       // topic t, id 9 (or payload)
-		add([]byte{head, 5, 0, 1, 't', 0, 0})       // id zero
-		add([]byte{head, 3, 0, 1, 't'})             // no identifier
-		add([]byte{head, 3, 0, 5, 't'})             // topic beyond the packet
-		add([]byte{head, 2, 0, 0})                  // empty topic
-		add([]byte{head, 4, 0, 1, 't', 0})          // truncated identifier
+		add([]byte{head, 5, 0, 1, 't', 0, 9}) // topic t, id 9 (or payload)
+		add([]byte{head, 5, 0, 1, 't', 0, 0}) // id zero
+		add([]byte{head, 3, 0, 1, 't'})       // no identifier
+		add([]byte{head, 3, 0, 5, 't'})       // topic beyond the packet
+		add([]byte{head, 2, 0, 0})            // empty topic
+		add([]byte{head, 4, 0, 1, 't', 0})    // truncated identifier
 		add([]byte{head, 7, 0, 1, 't', 0, 9, 'x', 'y'})
 	}
 	// valid acknowledgements followed by a second packet
